@@ -54,10 +54,18 @@ RULE = ('cases: (1) sinusoids amp*sin(2 pi f t+phi), f = edge x {0.1,0.3,0.5,0.8
         'single-changed-sample, zeros-inside, both-ends-extreme and single-step records. (6) histories of 5..10 calls on one object (filters, detrends, adds, averages, resets to other '
         'lengths, reads of cached quantities, deepcopy) each compared with the same call on a fresh object. (7) two records of one '
         'shape back to back with the first result, a twin object and the caller arrays re-checked afterwards. '
-        'distinct = digest of the complete parameter set of the case.')
+        '(8) extreme but valid scales (gen.special_scale: uniformly 1e-300..1e-165 / 1e155..1e300, 1e-150 next to 1e150 in '
+        'one record, ripple on a baseline closer than float32 resolution, counts above 2**24; float64 only) in 10 % of '
+        'the float64 records of the linear, add, running-average, state and detrend workloads (filters clamped to '
+        '1e-250..1e289, detrending to 1e-290..1e250 so that transients / added polynomials stay finite) and sinusoid '
+        'amplitudes 1e-250..1e280; narrow band-pass designs (relative bandwidth 2..10 %, orders 3-4, record length from '
+        'the ring-down time 25/(pi bw sin(pi/2N))) in the sinusoid and linear workloads; detrending of degree 3-4 over '
+        'durations > 1000 s and < 1 ms. distinct = digest of the complete parameter set of the case.')
 ASSUMPTIONS = ['finite real records; integer records of any width are in domain (the library must not compute in them)',
-               'cut-offs 0 < lo < hi < 0.8 Nyquist, band edges at least a factor 2 apart for the gain clause (narrower '
-               'bands ring longer than the 15 periods of margin)',
+               'cut-offs 0 < lo < hi < 0.8 Nyquist; gain clause: the middle half starts >= 15 periods of the lowest '
+               'cut-off and >= 25 ring-down time constants of the band after the record start; relative bandwidth >= 2 %',
+               'relations between filter runs allow scale*(1e-9 + 8 eps/w^2), w = smaller of lowest normalised corner and '
+               'normalised bandwidth; no absolute floors: every tolerance is relative (running-average floor 1e-321)',
                'records longer than the filtfilt edge padding (3*(2N+1) samples band, 3*(N+1) low/high); shorter ones, '
                'object-dtype cut-off arrays holding None and the undocumented gibbs_range=0 are counted, not judged',
                'a float32 record may carry float32 rounding (1e-6 relative) through sums, means and the Gibbs pad value',
@@ -79,6 +87,7 @@ GAIN_TOL = 1e-5          # of the input amplitude (DESIGN (d))
 DETREND_RTOL = 1e-9      # x Vandermonde condition number x max|x|
 EXACT_RTOL = 1e-12
 RUNAVG_RTOL = 16 * 2.220446049250313e-16    # x window length x max|x| in the window
+RUNAVG_FLOOR = 1e-321     # a few spacings of the subnormal range (records down to 1e-300 are driven)
 RUNAVG_RTOL32 = 4 * 1.1920929e-07            # float32 records are summed in float32
 F32_RTOL = 1e-6         # a float32 record legitimately carries float32 rounding (eps 6e-8) through sums and means
 MAX_SINE_N = 400000
@@ -507,12 +516,12 @@ def _post_running_average(args, kwargs, result, pre):
     wmax, wlen = O.window_absmax(x.tolist(), int(width))
     scale = np.array(wmax) * np.array(wlen, dtype=float)
     rtol = RUNAVG_RTOL32 if x.dtype == np.float32 else RUNAVG_RTOL
-    ok, idx, err, allowed = tol.worst(after, ref, scale=scale, rtol=rtol, atol=1e-300)
+    ok, idx, err, allowed = tol.worst(after, ref, scale=scale, rtol=rtol, atol=RUNAVG_FLOOR)
     ctx.check(ok, 'runavg==mean-of-original-window',
               lambda: _wit('running_average', pre, {'after': after[:50], 'expected': ref[:50], 'err': err,
                                                     'at': None if idx is None else int(idx[0])}, **call),
               'running_average(%r) on %d %s samples: %s (allowed = %.3g * window length * max|x| in the window)'
-              % (width, len(x), x.dtype, tol.describe(after, ref, scale=scale, rtol=rtol, atol=1e-300), rtol))
+              % (width, len(x), x.dtype, tol.describe(after, ref, scale=scale, rtol=rtol, atol=RUNAVG_FLOOR), rtol))
 
 
 def install(ctx):
@@ -677,6 +686,8 @@ def _lin_allowed(p, scale):
     normalised edge wn (poles at distance ~wn from the unit circle)."""
     nyq = 0.5 / p['dt']
     wn = min(v for v in (p['lo'], p['hi']) if v is not None) / nyq
+    if p['lo'] is not None and p['hi'] is not None:
+        wn = min(wn, (p['hi'] - p['lo']) / nyq)
     return scale * (1e-9 + 8 * np.finfo(float).eps / (wn * wn))
 
 
@@ -1171,8 +1182,18 @@ def gen_sine(rng, ftype, gibbs, order, ctx=None):
             dt = float(SINE_DT[int(rng.choice(len(SINE_DT), p=SINE_DT_P))])
             nyq = 0.5 / dt
             lo, hi = _pick_design(rng, ftype, nyq)
+        narrow = False
+        if ftype == 'band' and order >= 3 and not awkward and rng.random() < 0.3:
+            # narrow band-pass: relative bandwidth 2..10 %, lower corner >= 0.01 Nyquist (the 2*order poles cluster)
+            narrow = True
+            f0 = float(10.0 ** rng.uniform(-1.7, -0.35)) * nyq
+            rbw = float(rng.uniform(0.02, 0.1))
+            lo, hi = f0 * (1 - rbw / 2), f0 * (1 + rbw / 2)
         f_low = lo if lo is not None else hi
         n = max(1024, int(math.ceil(60.0 / (f_low * dt))))
+        if lo is not None and hi is not None:
+            # a band-pass rings for ~1/(pi * bandwidth * sin(pi/2N)): the quarter record must cover 25 time constants
+            n = max(n, int(math.ceil(4 * 25.0 / (math.pi * (hi - lo) * math.sin(math.pi / (2 * order))) / dt)))
         n += int(rng.integers(0, 2))       # odd and even lengths (centred Gibbs padding: int(diff_len / 2))
         if n > MAX_SINE_N:
             if ctx is not None:
@@ -1181,6 +1202,8 @@ def gen_sine(rng, ftype, gibbs, order, ctx=None):
         edges = [e for e in (lo, hi) if e is not None]
         edge = edges[int(rng.integers(len(edges)))]
         f = edge * RATIOS[int(rng.integers(len(RATIOS)))]
+        if narrow:      # inside, at and just outside the narrow band
+            f = float(rng.choice([lo * 0.97, lo, math.sqrt(lo * hi), 0.5 * (lo + hi), hi, hi * 1.03, lo * 0.9, hi * 1.1]))
         if f >= 0.9 * nyq:
             if ctx is not None:
                 ctx.observe('sine.frequency-skipped-above-0.9-nyquist')
@@ -1198,13 +1221,14 @@ def gen_sine(rng, ftype, gibbs, order, ctx=None):
         hi = None if hi is None else hi / ts
         g_extra = int(rng.choice([0, 2])) if (gibbs is not None and n <= 50000 and rng.random() < 0.15) else None
         g_range = int(rng.choice([1, 7, 200])) if (gibbs is not None and rng.random() < 0.15) else None
-        amp = float(rng.choice([1.0, 1.0, 0.01, 250.0, 1e-12, 1e12]))
+        amp = float(rng.choice([1.0, 1.0, 0.01, 250.0, 1e-12, 1e12, 1e-200, 1e200, 10.0 ** -rng.uniform(165, 250),
+                                10.0 ** rng.uniform(155, 280)]))
         return {'n': n, 'dt': dt, 'f': float(f), 'phi': float(rng.uniform(0, 2 * math.pi)),
                 'amp': amp, 'offset': (amp * float(rng.choice([-100.0, -3.0, 0.5, 3.0, 100.0])) if rng.random() < 0.2
                                        else None), 'awkward_dt': bool(awkward), 'lo': lo, 'hi': hi, 'order': int(order),
                 'pass_order': bool(rng.random() < 0.5), 'gibbs': gibbs, 'gibbs_extra': g_extra, 'gibbs_range': g_range,
                 'container': container, 'cut_kw': bool(rng.random() < 0.3),
-                'dtype': 'float32' if rng.random() < 0.15 else 'float64',
+                'narrow_band': narrow, 'dtype': 'float32' if (rng.random() < 0.15 and 1e-30 < amp < 1e30) else 'float64',
                 'form': FORMS[int(rng.integers(len(FORMS)))] if (n <= 50000 and rng.random() < 0.3) else 'array',
                 'cls': 'AccSignal' if rng.random() < 0.7 else 'Signal'}
     return None
@@ -1269,6 +1293,7 @@ def pinned_sines():
 
 LIN_N = [30, 40, 63, 64, 65, 100, 127, 128, 129, 333, 1000, 1023, 1024, 1025, 2048, 4095, 4096, 4097, 4684, 5000]
 LONG_N = [65535, 65536, 65537, 70001, 131073]          # past 2**16: a few per quick run
+EXTREME_SHARE = [0.1]      # share of float64 records at extreme scales (1e-300..1e300)
 DYNRANGE_SHARE = [0.12]     # share of float64 records with a huge dynamic range inside the record
 DTYPES = ['float64', 'float32', 'int64', 'int32', 'int16', 'int8', 'uint8', 'uint16']
 
@@ -1380,6 +1405,23 @@ def shape_record(rng, n, shape=None):
     return x, 'shape-' + shape
 
 
+def extreme_record(rng, n, lo=1e-300, hi=1e300):
+    """Numerically special but valid scales (gen.special_scale): uniformly tiny / huge (a square or a product of two
+    samples under/overflows), 1e-150 next to 1e150 inside one record, a ripple on a large baseline closer than float32
+    resolution, counts above 2**24. Every value is a finite double; float64 only."""
+    for _ in range(20):
+        x, cls = gen.record(rng, n, allow_const=False)
+        y, tag = gen.special_scale(rng, x)
+        m = float(np.max(np.abs(y)))
+        if tag and np.all(np.isfinite(y)) and m > 0:
+            if m > hi:
+                y = y * (hi / m)
+            elif m < lo:
+                y = y * (lo / m)
+            return np.asarray(y, dtype=float), '%s/extreme-scale%s' % (cls, tag)
+    return x, cls
+
+
 def typed_record(rng, n, dtype, frac=1.0, dyadic=False):
     """A record of the given dtype. Integers use the fraction frac of the dtype's range (all of it by default, so that
     sums / differences of neighbours leave the dtype); float32 optionally dyadic so that x+y is exact."""
@@ -1409,6 +1451,8 @@ def typed_record(rng, n, dtype, frac=1.0, dyadic=False):
         return dynrange_record(rng, n)
     if rng.random() < 0.2:
         return shape_record(rng, n)
+    if rng.random() < EXTREME_SHARE[0]:
+        return extreme_record(rng, n)
     x, cls = gen.record(rng, n, allow_const=False)
     r = rng.random()
     tag = ''
@@ -1448,6 +1492,11 @@ def gen_linear(rng, ftype, gibbs):
     else:
         lo, hi = min(wn_lo * 3, 0.9) * nyq, None
     order = int(rng.integers(1, 5))
+    if ftype == 'band' and order >= 3 and rng.random() < 0.25:
+        # narrow band-pass, relative bandwidth 2..10 %, lower corner >= 0.01 Nyquist
+        f0 = float(10.0 ** rng.uniform(-1.9, -0.3)) * nyq
+        rbw = float(rng.uniform(0.02, 0.1))
+        lo, hi = f0 * (1 - rbw / 2), f0 * (1 + rbw / 2)
     r = rng.random()
     if gibbs is None and r < 0.1:
         n = 3 * (order * (2 if ftype == 'band' else 1) + 1) + 1 + int(rng.integers(0, 2))   # minimal accepted length
@@ -1470,6 +1519,19 @@ def gen_linear(rng, ftype, gibbs):
     c = float(rng.choice([2.0, -0.5, 1024.0])) if rng.random() < 0.4 else float(rng.normal() * 10 ** rng.uniform(-2, 2))
     if c == 0.0:
         c = 3.0
+    if 'extreme-scale' in cy and 'extreme-scale' not in cx:
+        x, cx, y, cy = y, cy, x, cx
+    if 'extreme-scale' in cx:
+        # keep the filter's own products and transients normal doubles (1e-250 .. 1e289); the second record lives at the
+        # same scale so that both contribute to the relation; no large scale factor (c*x must stay finite)
+        m = float(np.max(np.abs(x)))
+        if m > 1e289 or m < 1e-250:
+            x = x * (min(max(m, 1e-250), 1e289) / m)
+            m = float(np.max(np.abs(x)))
+        y0, cy = gen.record(rng, n, allow_const=False)
+        y = y0 / float(np.max(np.abs(y0))) * m * float(rng.uniform(0.1, 5.0))
+        cy += '/rescaled-to-extreme'
+        c = float(rng.choice([2.0, -0.5, 3.0, -1.0]))
     # micro / mega amplitudes: scale across the decades where an absolute epsilon (np.isclose, 1e-8) would switch
     if 'amp1e-12' in cx and rng.random() < 0.7:
         c = float(rng.choice([1e6, 1e9, 1e12, -1e10]))
@@ -1567,9 +1629,25 @@ def gen_detrend(rng, k):
         elif r2 < 0.24:
             x = x + 1e6 * float(np.max(np.abs(x))) * float(rng.choice([-1, 1]))
             spike += '+offset1e6'
+        elif r2 < 0.34:
+            # extreme but valid scales (detrending is linear in the record); room is left for the added polynomial
+            y, tag = gen.special_scale(rng, x)
+            m = float(np.max(np.abs(y)))
+            if tag and np.all(np.isfinite(y)) and m > 0:
+                x = y * (min(max(m, 1e-290), 1e250) / m)
+                spike += '/extreme-scale' + tag
     amp = max(float(np.max(np.abs(x.astype(float)))), 1e-300)
     coefs = (rng.normal(size=k + 1) * amp * 10.0 ** rng.uniform(-1, 3)).tolist()
-    return {'x': x, 'k': int(k), 'dt': float(_wide_dt(rng)), 'coefs': coefs, 'kw': bool(rng.random() < 0.3),
+    dt = float(_wide_dt(rng))
+    if k >= 3 and rng.random() < 0.3:
+        # durations for which t**k in physical time leaves the range a raw (unscaled) least-squares fit can resolve
+        if rng.random() < 0.5:
+            dt = max(1100.0 / n, float(rng.uniform(0.5, 1000.0)))
+            spike += '/duration>1000s'
+        else:
+            dt = min(0.9e-3 / n, float(10.0 ** rng.uniform(-9, -6.5)))
+            spike += '/duration<1ms'
+    return {'x': x, 'k': int(k), 'dt': dt, 'coefs': coefs, 'kw': bool(rng.random() < 0.3),
             'noarg': bool(k == 0 and rng.random() < 0.3), 'cls': 'AccSignal' if rng.random() < 0.5 else 'Signal',
             'form': FORMS[int(rng.integers(len(FORMS)))] if rng.random() < 0.6 else 'array',
             'record_class': '%s%s' % (cls, spike)}
@@ -1768,6 +1846,10 @@ def run_shard(ctx):
             continue
         gsq = O.butter_gain_sq(p['f'], p['dt'], p['order'], p['lo'], p['hi'])
         ctx.case(_dig('sine', p), nontrivial=gsq >= 1e-4, cls='sine-%s-gibbs-%s' % (t, gname(g)), sample=p)
+        if p.get('narrow_band'):
+            ctx.observe('workload.narrow-band.sine')
+        if not 1e-100 < p['amp'] < 1e100:
+            ctx.observe('workload.extreme-scale.sine')
         case_sine(eqsig, ctx, p)
 
     # -- sequences of calls that reuse ONE cut-off container object (float64 / int ndarray, list, tuple)
@@ -1798,6 +1880,10 @@ def run_shard(ctx):
                        and not np.array_equal(p['x'], p['y']))
         ctx.case(_dig('linear', p), nontrivial=nontriv,
                  cls='linear-%s-gibbs-%s-%s' % (t, gname(g), p['x'].dtype.name), sample=_short(p))
+        if any('extreme-scale' in c_ for c_ in p['classes']):
+            ctx.observe('workload.extreme-scale.linear')
+        if t == 'band' and (p['hi'] - p['lo']) < 0.11 * p['lo']:
+            ctx.observe('workload.narrow-band.linear')
         case_linear(eqsig, ctx, p)
 
     for c in range(cnt['container']):
@@ -1826,17 +1912,25 @@ def run_shard(ctx):
         p = gen_detrend(rng, k)
         x = np.asarray(p['x'], dtype=float)
         # a single sample cannot lie further than (n-1)/sqrt(n) standard deviations from the mean
-        far = len(x) > 1 and abs(x[-1] - np.mean(x)) >= min(2.5, 0.8 * (len(x) - 1) / math.sqrt(len(x))) * np.std(x)
+        xs = x / (float(np.max(np.abs(x))) or 1.0)       # squares of the raw values may overflow
+        far = len(x) > 1 and abs(xs[-1] - np.mean(xs)) >= min(2.5, 0.8 * (len(x) - 1) / math.sqrt(len(x))) * np.std(xs)
         ctx.case(_dig('detrend', p), nontrivial=bool(far and np.ptp(x) > 0),
-                 cls='detrend-k%d-%s' % (k, p['record_class'].split('+')[0]),
+                 cls='detrend-k%d-%s%s' % (k, p['record_class'].split('+')[0].split('/')[0],
+                                           ''.join('/' + t for t in p['record_class'].split('/')[1:] if t[:3] in ('ext', 'dur'))
+                                           .split('+')[0]),
                  sample={'k': k, 'n': len(x), 'class': p['record_class'], 'tail': x[-4:], 'mean': float(np.mean(x)),
                          'form': p['form'], 'dtype': p['x'].dtype.name})
+        for tag in ('extreme-scale', 'duration>1000s', 'duration<1ms'):
+            if tag in p['record_class']:
+                ctx.observe('workload.%s.detrend' % tag)
         case_detrend(eqsig, ctx, p)
 
     # -- adds
     for c in range(cnt['add']):
         p = gen_add(rng, c + sh)
         ctx.case(_dig('add', p), nontrivial=len(p['x']) > 0, cls='add-%s-%s' % (p['variant'], p['x'].dtype.name))
+        if 'extreme-scale' in p['record_class']:
+            ctx.observe('workload.extreme-scale.add')
         case_add(eqsig, ctx, p)
 
     # -- running average
@@ -1848,6 +1942,8 @@ def run_shard(ctx):
                                           '-even-width' if int(p['width']) % 2 == 0 else '',
                                           '-real-width' if p['w_type'] == 'real' else ''),
                  sample={'n': len(xx), 'width': p['width'], 'dtype': p['x'].dtype.name, 'form': p['form']})
+        if 'extreme-scale' in p['record_class']:
+            ctx.observe('workload.extreme-scale.runavg')
         case_runavg(eqsig, ctx, p)
 
     # -- same-object histories
